@@ -12,7 +12,7 @@ from ..heap import ZERO, HeapInterp, Obj, prov, string, taint
 from ..model import AnalysisError, FuncInfo, norm, short
 from ..report import Finding, RuleResult
 from . import rule
-from .common import assigned_names, closure, entry, kwarg, names_in, own_walk, params_of, parent_map, single_def, sites, try_const
+from .common import assigned_names, closure, entry, kwarg, mentions_text, names_in, own_walk, params_of, parent_map, single_def, sites, try_const
 from .spec import (V2000_ATOM, V2000_BOND, V2000_CHARGE_CODES, V2000_COUNTS, V2000_PROP, V3000_ATOM_KEYWORDS)
 
 SINKS = ("chg", "mass", "rad")
@@ -29,6 +29,18 @@ class DispatchModel:
     other tests are followed both ways; if-chains, match statements and look-ups in a module-level version table
     (TABLE[v], TABLE.get(v) followed by a None test) are understood."""
 
+    def cval(self, f, n):
+        """the version string an expression stands for: a literal or a name of a module-level constant"""
+        if isinstance(n, ast.Constant):
+            return n.value if isinstance(n.value, str) else None
+        if isinstance(n, (ast.Name, ast.Attribute)) and not (isinstance(n, ast.Name) and n.id in params_of(f.node)):
+            try:
+                v = self.ctx.repo.try_const(f.module, n.id, None) if isinstance(n, ast.Name) else try_const(self.ctx, f, n)
+            except Exception:
+                v = None
+            return v if isinstance(v, str) else None
+        return None
+
     def __init__(self, ctx):
         self.ctx = ctx
         ent = entry(ctx, "read_text")
@@ -41,8 +53,8 @@ class DispatchModel:
         for n in own_walk(d.node):
             if isinstance(n, ast.Compare):
                 sides = [n.left] + list(n.comparators)
-                if any(isinstance(c, ast.Constant) and c.value in VERSIONS for x in sides for c in ast.walk(x)):
-                    self.vnames |= {x.id for x in sides if isinstance(x, ast.Name)}
+                if any(self.cval(d, c) in VERSIONS for x in sides for c in ast.walk(x)):
+                    self.vnames |= {x.id for x in sides if isinstance(x, ast.Name) and self.cval(d, x) is None}
             if isinstance(n, ast.Match) and isinstance(n.subject, ast.Name):
                 self.vnames.add(n.subject.id)
             if isinstance(n, ast.Subscript) and isinstance(n.slice, ast.Name) and isinstance(n.value, ast.Name) and self._table(d, n.value.id) is not None:
@@ -51,18 +63,17 @@ class DispatchModel:
                     and self._table(d, n.func.value.id) is not None and n.args and isinstance(n.args[0], ast.Name):
                 self.vnames.add(n.args[0].id)
 
-    @staticmethod
-    def _table(f, name):
+    def _table(self, f, name):
         tbl = f.module.assigns.get(name)
-        return tbl if isinstance(tbl, ast.Dict) and any(isinstance(k, ast.Constant) and k.value in VERSIONS for k in tbl.keys) else None
+        return tbl if isinstance(tbl, ast.Dict) and any(k is not None and self.cval(f, k) in VERSIONS for k in tbl.keys) else None
 
     def _mentions_versions(self, f) -> bool:
         seen = set()
         for n in own_walk(f.node):
-            if isinstance(n, ast.Constant) and n.value in VERSIONS:
-                seen.add(n.value)
+            if isinstance(n, (ast.Constant, ast.Name)) and self.cval(f, n) in VERSIONS:
+                seen.add(self.cval(f, n))
             if isinstance(n, ast.Name) and self._table(f, n.id) is not None:
-                seen |= {k.value for k in self._table(f, n.id).keys if isinstance(k, ast.Constant)}
+                seen |= {self.cval(f, k) for k in self._table(f, n.id).keys if k is not None}
         return set(VERSIONS) <= seen
 
     def _lookup(self, e, ver):
@@ -76,7 +87,7 @@ class DispatchModel:
         if tbl is None:
             return None
         for k, v in zip(tbl.keys, tbl.values):
-            if isinstance(k, ast.Constant) and k.value == ver and isinstance(v, (ast.Name, ast.Attribute)):
+            if k is not None and self.cval(self.disp, k) == ver and isinstance(v, (ast.Name, ast.Attribute)):
                 r = self.ctx.repo.resolve_dotted(self.disp.module, v)
                 if r and r[0] == "func":
                     return ("row", r[1])
@@ -85,7 +96,13 @@ class DispatchModel:
     def outcome(self, ver: str):
         """(functions called, how the dispatcher ends: 'raise' / 'return' / 'mixed' / 'falls through')"""
         ctx, disp = self.ctx, self.disp
-        env = {v: ver for v in self.vnames}
+        env = {}
+        for n in ast.walk(disp.node):
+            if isinstance(n, ast.Name) and n.id not in env and n.id not in params_of(disp.node):
+                c = ctx.repo.try_const(disp.module, n.id, None)
+                if isinstance(c, (str, int, tuple, frozenset)):
+                    env[n.id] = c
+        env.update({v: ver for v in self.vnames})
         reached: list = []
 
         def deref(e):
@@ -1013,9 +1030,9 @@ def r_sibkeys(ctx) -> RuleResult:
 # --------------------------------------------------------------------------- R-SUPERSEDE
 
 
-def scan_var(fn):
+def scan_var(ctx, fi, fn):
     for lp in ast.walk(fn):
-        if isinstance(lp, ast.For) and isinstance(lp.target, ast.Name) and any(isinstance(x, ast.Constant) and x.value == "M  END" for x in ast.walk(lp)):
+        if isinstance(lp, ast.For) and isinstance(lp.target, ast.Name) and mentions_text(ctx, fi, lp, "M  END"):
             return lp.target.id
     return None
 
@@ -1029,7 +1046,7 @@ def r_supersede(ctx) -> RuleResult:
     pf = None
     for f in clo:
         for lp in [n for n in own_walk(f.node) if isinstance(n, ast.For)]:
-            if any(isinstance(x, ast.Constant) and x.value == "M  END" for x in ast.walk(lp)):
+            if mentions_text(ctx, f, lp, "M  END"):
                 pf = f
     if pf is None:
         raise AnalysisError("R-SUPERSEDE: no scan loop with an `M  END` test in the V2000 reader (anchor vanished)")
@@ -1104,7 +1121,7 @@ def r_supersede(ctx) -> RuleResult:
     merge_calls = []
     merge_inner = {}
     scan0 = next((lp for lp in own_walk(fn) if isinstance(lp, ast.For) and isinstance(lp.target, ast.Name)
-                  and any(isinstance(x, ast.Constant) and x.value == "M  END" for x in ast.walk(lp))), None)
+                  and mentions_text(ctx, pf, lp, "M  END")), None)
     for x in own_walk(fn):
         if isinstance(x, ast.Call):
             cs = ctx.cg.resolve_call(pf, x, ctx.cg.local_types(pf), set(params_of(fn)))
@@ -1115,7 +1132,7 @@ def r_supersede(ctx) -> RuleResult:
                 scanned = {n_.id for n_ in ast.walk(scan0.iter) if isinstance(n_, ast.Name)} if scan0 is not None else set()
                 atom_tbls = set(params_of(fn)) - scanned
                 if inner and any(isinstance(a_, ast.Name) and a_.id in atom_tbls for a_ in x.args) and \
-                        not any(scan_var(fn) in names_in(a_) for a_ in x.args):
+                        not any(scan_var(ctx, pf, fn) in names_in(a_) for a_ in x.args):
                     merge_calls.append(x)
                     merge_inner[id(x)] = (cs.target, inner)
     if not merge_calls:
@@ -1130,7 +1147,7 @@ def r_supersede(ctx) -> RuleResult:
     SAMPLES = {"M  CHG": ["M  CHG  1   1   1", "M  CHG  1   2   0", "M  CHG  0"],
                "M  RAD": ["M  RAD  1   1   2", "M  RAD  1   3   0", "M  RAD  0"]}
     scan = next((lp for lp in own_walk(fn) if isinstance(lp, ast.For) and isinstance(lp.target, ast.Name)
-                 and any(isinstance(x, ast.Constant) and x.value == "M  END" for x in ast.walk(lp))), None)
+                 and mentions_text(ctx, pf, lp, "M  END")), None)
     if scan is None:
         raise AnalysisError("R-SUPERSEDE: scan loop not found")
     lv = scan.target.id
@@ -1247,7 +1264,7 @@ def r_supersede(ctx) -> RuleResult:
     loops = [n for n in own_walk(fn) if isinstance(n, ast.For)]
     scan = None
     for lp in loops:
-        if any(isinstance(x, ast.Constant) and x.value == "M  END" for x in ast.walk(lp)):
+        if mentions_text(ctx, pf, lp, "M  END"):
             scan = lp
     if scan is None:
         res.inst(pf.fq, "scan loop with `M  END` test", "fail")
